@@ -55,7 +55,11 @@ def apply(m, root):
     s = open(p).read()
     find = m["find"]
     nth = m.get("nth", 0)
-    if m.get("regex"):
+    if m.get("regex") and m.get("all"):
+        s2, cnt = re.subn(find, m["replace"], s, flags=re.S)
+        if cnt == 0:
+            return False
+    elif m.get("regex"):
         ms = list(re.finditer(find, s, re.S))
         if len(ms) <= nth:
             return False
